@@ -223,13 +223,24 @@ theorem budgetConsume_k : ⦃fun w => ⌜snap cfg w = g⌝⦄ budgetConsume cfg 
     all_goals (rename_i h; exact Foot.trans h (Foot.internal _ _ _ _ _ _ rfl))
   exact keep_of_foot_spec cfg hf g
 
+theorem checkAbortCaught_k (a : Nat) :
+    ⦃fun w => ⌜snap cfg w = g⌝⦄ checkAbortCaught cfg tl a ⦃kept cfg g⦄ := by
+  have hf : ∀ w0, ⦃fun w => ⌜Foot inertK w0 w⌝⦄ checkAbortCaught cfg tl a ⦃footPost inertK w0⦄ := by
+    intro w0
+    have h := checkAbort_foot inertK w0 rfl rfl rfl cfg tl a
+    mvcgen [checkAbortCaught, abortToTrue, h]
+    all_goals (try simp only [restore_dummy])
+    all_goals (try intros)
+    all_goals (try assumption)
+  exact keep_of_foot_spec cfg hf g
+
 end leaves
 
 attribute [local spec] emit_k setStop_k checkAbort_k stopWith_k recordStrategySuccess_k
   stratRecordFailure_k callStrategy_k callClassifier_k callAttemptStart_k callAttemptEndFromOutcome_k
   callBeforeSleep_k callSleepHandler_k buildOutcome_k emitAbortedOnce_k abortOutcome_k handleSleepDecision_k
   handleSuccessAttemptEnd_k handleAbortAttemptEnd_k raiseExhaustedCall_k buildExhaustedOutcome_k
-  deliverCall_k deliverExecute_k budgetConsume_k
+  deliverCall_k deliverExecute_k budgetConsume_k checkAbortCaught_k
 
 /-! ### the invariants (each guarded by "the log so far is quiet") -/
 
@@ -462,5 +473,716 @@ theorem handleException_spec (cfg : Cfg) (tl : Bool) (e : Exn) (a : Nat) :
 
 attribute [local spec] handleException_spec
 
+
+attribute [local spec] invokeOp_spec shouldClassifyResult_spec callSleeper_spec grantRetry_spec
+  handleFailure2_spec handleUnknown_spec handleFailure1_spec handleFailure_spec handleException_spec
+
+/-! ### sleeping, and the check after the sleep -/
+
+theorem sd_cases (r : SleepDecision) : r = .sleep ∨ r = .defer ∨ r = .abort ∨ r = .other := by
+  cases r <;> simp
+
+macro "c02s" : tactic => `(tactic| all_goals (
+  (try subst_vars) <;> (try intros) <;>
+  (try simp +zetaDelta only [TopW, MidW, GrantW, SleptW, FinW, snap] at *) <;>
+  first
+    | (simp_all +zetaDelta; done)
+    | grind [Keep.top, Keep.mid, Keep.grant, Keep.slept, Keep.fin, TopS.mid, GrantS.mid, SleptS.mid, MidS.fin,
+        TopS.fin, GrantS.fin, SleptS.fin, MidS.grant, GrantS.le, SleptS.top, sanitize_le, cases SleepDecision]
+    | skip))
+
+
+theorem sleepAction_spec (cfg : Cfg) (tl : Bool) (a s : Nat) (ctx : BackoffCtx) :
+    ⦃fun w => ⌜GrantW cfg s w⌝⦄ sleepAction cfg tl a s ctx
+    ⦃post⟨fun r w => ⌜MidW cfg w ∧ (r ≠ .defer → r ≠ .abort → SleptW cfg w)⌝, fun _ w => ⌜FinW cfg w⌝⟩⦄ := by
+  mvcgen [sleepAction]
+  c02s
+
+/-- what an attempt's failure handling leaves: the loop goes on only from a good loop-top state -/
+abbrev outPostA (cfg : Cfg) : PostCond AOutcome (.except Exn (.arg World .pure)) :=
+  post⟨fun o w => ⌜MidW cfg w ∧ (o.decision = .retry → TopW cfg w)⌝, fun _ w => ⌜FinW cfg w⌝⟩
+
+theorem finalizeAttempt_spec (cfg : Cfg) (tl : Bool) (a : Nat) (d : Decision) (act : Option SleepDecision)
+    (cls : Option Classification) (e : Option Exn) (r : Option Nat) (c : Option Cause) :
+    ⦃fun w => ⌜MidW cfg w ∧ (d ≠ .raise → act ≠ some .defer → act ≠ some .abort → SleptW cfg w)⌝⦄
+    finalizeAttempt cfg tl a d act cls e r c ⦃outPostA cfg⦄ := by
+  mvcgen [finalizeAttempt, getRS, elapsed]
+  c02
+
+attribute [local spec] sleepAction_spec finalizeAttempt_spec
+
+theorem failureOutcome_spec (cfg : Cfg) (tl : Bool) (a : Nat) (d : Decision)
+    (cls : Option Classification) (e : Option Exn) (r : Option Nat) (c : Option Cause) :
+    ⦃fun w => ⌜MidW cfg w ∧ ∀ s ctx, d = .retry s ctx → GrantW cfg s w⌝⦄
+    failureOutcome cfg tl a d cls e r c ⦃outPostA cfg⦄ := by
+  mvcgen [failureOutcome]
+  c02
+
+attribute [local spec] failureOutcome_spec
+
+theorem determineAction_continue_iff (o : AOutcome) (r : RState) (a : Nat) (fr : Bool) :
+    determineAction o r a fr = .continue_ ↔ o.decision = .retry := by
+  unfold determineAction
+  cases o.decision <;> cases fr <;> simp
+
+@[simp] theorem isRaise_iff (d : Decision) : d.isRaise = true ↔ d = .raise := by
+  cases d <;> simp [Decision.isRaise]
+
+/-! ### the retry loop, `call` flavour -/
+
+/-- one attempt: the verdict holds; and if the loop goes on, it does so from a good loop-top state -/
+abbrev attemptPost (cfg : Cfg) : PostCond (Option α) (.except Exn (.arg World .pure)) :=
+  post⟨fun r w => ⌜FinW cfg w ∧ (r = none → TopW cfg w)⌝, fun _ w => ⌜FinW cfg w⌝⟩
+
+macro "c02a" : tactic => `(tactic| all_goals (
+  (try subst_vars) <;> (try intros) <;>
+  (try simp +zetaDelta only [TopW, MidW, GrantW, SleptW, FinW, snap, determineAction_continue_iff] at *) <;>
+  first
+    | (simp_all +zetaDelta; done)
+    | grind [Keep.top, Keep.mid, Keep.grant, Keep.slept, Keep.fin, TopS.mid, GrantS.mid, SleptS.mid, MidS.fin,
+        TopS.fin, GrantS.fin, SleptS.fin, MidS.grant, GrantS.le, SleptS.top, sanitize_le, cases SleepDecision]
+    | skip))
+
+theorem callExceptionPath_spec (cfg : Cfg) (a : Nat) (e : Exn) :
+    ⦃fun w => ⌜MidW cfg w⌝⦄ callExceptionPath cfg a e ⦃attemptPost cfg⦄ := by
+  mvcgen [callExceptionPath, getRS, modifyAS]
+  c02a
+
+attribute [local spec] callExceptionPath_spec
+
+theorem callOpHandler_spec (cfg : Cfg) (a : Nat) (e : Exn) :
+    ⦃fun w => ⌜MidW cfg w⌝⦄ callOpHandler cfg a e ⦃attemptPost cfg⦄ := by
+  mvcgen [callOpHandler]
+  c02a
+
+theorem callResultFailure_spec (cfg : Cfg) (a x : Nat) (c : Classification) :
+    ⦃fun w => ⌜MidW cfg w⌝⦄ callResultFailure cfg a x c ⦃attemptPost cfg⦄ := by
+  mvcgen [callResultFailure, getRS, modifyAS]
+  c02a
+
+attribute [local spec] callOpHandler_spec callResultFailure_spec
+
+theorem callResultPath_spec (cfg : Cfg) (a x : Nat) :
+    ⦃fun w => ⌜MidW cfg w⌝⦄ callResultPath cfg a x ⦃attemptPost cfg⦄ := by
+  mvcgen [callResultPath]
+  c02a
+
+attribute [local spec] callResultPath_spec
+
+/-- one iteration of the loop of `call` -/
+theorem callAttempt_spec (cfg : Cfg) (a : Nat) :
+    ⦃fun w => ⌜TopW cfg w⌝⦄ callAttempt cfg a ⦃attemptPost cfg⦄ := by
+  mvcgen [callAttempt, modifyAS]
+  c02a
+
+abbrev finPost (cfg : Cfg) : PostCond α (.except Exn (.arg World .pure)) :=
+  post⟨fun _ w => ⌜FinW cfg w⌝, fun _ w => ⌜FinW cfg w⌝⟩
+
+theorem callLoop_spec (cfg : Cfg) : ∀ (fuel a : Nat),
+    ⦃fun w => ⌜TopW cfg w⌝⦄ callLoop cfg fuel a ⦃finPost cfg⦄ := by
+  intro fuel
+  induction fuel with
+  | zero =>
+    intro a
+    mvcgen [callLoop]
+    c02a
+  | succ f ih =>
+    intro a
+    mvcgen [callLoop, callAttempt_spec, ih]
+    c02a
+
+/-- at the start of a call: if the log so far (the breaker's admission) is quiet, the monitor is
+    still in its initial state -/
+def StartW (cfg : Cfg) (w : World) : Prop := QuietTr w.trace → cur cfg w.trace = {}
+
+theorem top_of_start {cfg : Cfg} {q hh : Prop} {m : St} {n : Nat} (h : q → m = {}) :
+    TopS cfg ⟨q, hh, m, n, n⟩ := by
+  intro hq
+  have hm : m = {} := h hq
+  subst hm
+  exact ⟨⟨Nat.le_refl _, rfl, fun _ => Nat.le_refl _, fun _ => Nat.zero_le _⟩, rfl, fun h => by cases h⟩
+
+theorem runCall_spec (cfg : Cfg) :
+    ⦃fun w => ⌜StartW cfg w⌝⦄ runCall cfg ⦃finPost cfg⦄ := by
+  have hl := callLoop_spec cfg cfg.maxAttempts 1
+  mvcgen [runCall, initState, hl]
+  c02a
+  all_goals (rename_i h _; exact top_of_start h)
+
+
+attribute [local spec] sleepAction_spec finalizeAttempt_spec failureOutcome_spec
+
+/-! ### the retry loop, `execute` flavour -/
+
+macro "c02x" : tactic => `(tactic| all_goals (
+  (try subst_vars) <;> (try intros) <;>
+  (try simp +zetaDelta only [TopW, MidW, GrantW, SleptW, FinW, snap, determineAction_continue_iff,
+    restore_dummy] at *) <;>
+  first
+    | (simp_all +zetaDelta; done)
+    | grind [Keep.top, Keep.mid, Keep.grant, Keep.slept, Keep.fin, TopS.mid, GrantS.mid, SleptS.mid, MidS.fin,
+        TopS.fin, GrantS.fin, SleptS.fin, MidS.grant, GrantS.le, SleptS.top, sanitize_le, cases SleepDecision]
+    | skip))
+
+theorem execResultFailure_spec (cfg : Cfg) (tl : Bool) (a x : Nat) (c : Classification) :
+    ⦃fun w => ⌜MidW cfg w⌝⦄ execResultFailure cfg tl a x c ⦃attemptPost cfg⦄ := by
+  mvcgen [execResultFailure, getRS, modifyAS]
+  c02x
+
+attribute [local spec] execResultFailure_spec
+
+theorem execResultPath_spec (cfg : Cfg) (tl : Bool) (a x : Nat) :
+    ⦃fun w => ⌜MidW cfg w⌝⦄ execResultPath cfg tl a x ⦃attemptPost cfg⦄ := by
+  mvcgen [execResultPath]
+  c02x
+
+theorem execPre_spec (cfg : Cfg) (tl : Bool) (a : Nat) :
+    ⦃fun w => ⌜TopW cfg w⌝⦄ execPre cfg tl a
+    ⦃post⟨fun _ w => ⌜MidW cfg w⌝, fun _ w => ⌜MidW cfg w⌝⟩⦄ := by
+  mvcgen [execPre, modifyAS]
+  c02x
+
+theorem execAbortExit_spec (cfg : Cfg) (tl : Bool) (a : Nat) (e : Exn) :
+    ⦃fun w => ⌜FinW cfg w⌝⦄ execAbortExit cfg tl a e
+    ⦃post⟨fun r w => ⌜r ≠ none ∧ FinW cfg w⌝, fun _ w => ⌜FinW cfg w⌝⟩⦄ := by
+  mvcgen [execAbortExit]
+  c02x
+
+attribute [local spec] execAbortExit_spec checkAbortCaught_k
+
+theorem execExceptionPath3_spec (cfg : Cfg) (tl : Bool) (a : Nat) (e : Exn) (d : Decision) :
+    ⦃fun w => ⌜MidW cfg w ∧ ∀ s ctx, d = .retry s ctx → GrantW cfg s w⌝⦄
+    execExceptionPath3 cfg tl a e d ⦃attemptPost cfg⦄ := by
+  mvcgen [execExceptionPath3, getRS, modifyAS]
+  c02x
+
+attribute [local spec] execExceptionPath3_spec
+
+theorem execExceptionPath2_spec (cfg : Cfg) (tl : Bool) (a : Nat) (e : Exn) :
+    ⦃fun w => ⌜MidW cfg w⌝⦄ execExceptionPath2 cfg tl a e ⦃attemptPost cfg⦄ := by
+  mvcgen [execExceptionPath2, getRS, modifyAS]
+  c02x
+
+attribute [local spec] execExceptionPath2_spec
+
+theorem execExceptionPath_spec (cfg : Cfg) (tl : Bool) (a : Nat) (e : Exn) :
+    ⦃fun w => ⌜MidW cfg w⌝⦄ execExceptionPath cfg tl a e ⦃attemptPost cfg⦄ := by
+  mvcgen [execExceptionPath, modifyAS]
+  c02x
+
+attribute [local spec] execExceptionPath_spec
+
+theorem execHandler_spec (cfg : Cfg) (tl : Bool) (a : Nat) (e : Exn) :
+    ⦃fun w => ⌜MidW cfg w⌝⦄ execHandler cfg tl a e ⦃attemptPost cfg⦄ := by
+  mvcgen [execHandler]
+  c02x
+
+theorem execReturnedHandler_spec (cfg : Cfg) (tl : Bool) (a : Nat) (e : Exn) :
+    ⦃fun w => ⌜FinW cfg w⌝⦄ execReturnedHandler cfg tl a e ⦃attemptPost cfg⦄ := by
+  mvcgen [execReturnedHandler]
+  c02x
+
+theorem execAttempt_spec (cfg : Cfg) (tl : Bool) (a : Nat) :
+    ⦃fun w => ⌜TopW cfg w⌝⦄ execAttempt cfg tl a ⦃attemptPost cfg⦄ := by
+  mvcgen [execAttempt, execPre_spec, execHandler_spec, execResultPath_spec, execReturnedHandler_spec]
+  c02x
+
+theorem execLoop_spec (cfg : Cfg) (tl : Bool) : ∀ (fuel a : Nat),
+    ⦃fun w => ⌜TopW cfg w⌝⦄ execLoop cfg tl fuel a ⦃finPost cfg⦄ := by
+  intro fuel
+  induction fuel with
+  | zero =>
+    intro a
+    mvcgen [execLoop]
+    c02x
+  | succ f ih =>
+    intro a
+    mvcgen [execLoop, execAttempt_spec, ih]
+    c02x
+
+theorem runExecute_spec (cfg : Cfg) :
+    ⦃fun w => ⌜StartW cfg w⌝⦄ runExecute cfg ⦃finPost cfg⦄ := by
+  have hl := execLoop_spec cfg cfg.timeline cfg.maxAttempts 1
+  mvcgen [runExecute, initState, hl]
+  c02x
+  all_goals (rename_i h _ _; exact top_of_start h)
+
+
+/-! ### policy level: nothing outside the retry loop invokes the operation or sleeps -/
+open Policy
+
+/-- every request kind but `op` and `sleeper` -/
+def polK : Kind → Bool
+  | .op | .sleeper => false
+  | _ => true
+
+theorem step_pol (cfg : Cfg) (s : St) (x : Req × Ans) (h : polK x.1.kind = true) :
+    (step cfg s x).bad = s.bad ∧ (step cfg s x).slept = s.slept := by
+  obtain ⟨r, a⟩ := x
+  cases r <;> simp_all [polK, Req.kind, step]
+
+theorem cur_append_pol (cfg : Cfg) (δ t : List (Req × Ans)) (h : ∀ x ∈ δ, polK x.1.kind = true) :
+    (cur cfg (δ ++ t)).bad = (cur cfg t).bad ∧ (cur cfg (δ ++ t)).slept = (cur cfg t).slept := by
+  induction δ with
+  | nil => simp
+  | cons x δ ih =>
+    have hx := step_pol cfg (cur cfg (δ ++ t)) x (h x (by simp))
+    have := ih (fun y hy => h y (by simp [hy]))
+    simp only [List.cons_append, cur_cons]
+    exact ⟨hx.1.trans this.1, hx.2.trans this.2⟩
+
+/-- the verdict survives anything that neither invokes the operation nor sleeps -/
+theorem fin_foot (cfg : Cfg) (w w' : World) (h : Foot polK w w') (hf : FinW cfg w) : FinW cfg w' := by
+  obtain ⟨δ, e, k⟩ := h.trace
+  have hp := cur_append_pol cfg δ w.trace k
+  intro hq
+  have hq' : QuietTr w.trace := fun x hx => hq x (by simp [snap, e, hx])
+  obtain ⟨h1, h2⟩ := hf hq'
+  simp only [snap, e] at h1 h2 ⊢
+  refine ⟨hp.1.trans h1, fun hh => ?_⟩
+  rw [hp.2]
+  exact h2 (fun x hx => hh x (by simp [hx]))
+
+theorem inert_sub_pol : ∀ k, inertK k = true → polK k = true := by
+  intro k; cases k <;> simp [inertK, polK]
+
+theorem start_foot (cfg : Cfg) (w w' : World) (h : Foot inertK w w') (hs : StartW cfg w) : StartW cfg w' := by
+  have k := keep_of_foot cfg w w' h
+  intro hq
+  obtain ⟨q, hm, _, _⟩ := k.quiet hq
+  have : cur cfg w'.trace = cur cfg w.trace := hm
+  rw [this]
+  exact hs q
+
+theorem StartW.fin {cfg : Cfg} {w : World} (h : StartW cfg w) : FinW cfg w := by
+  intro hq
+  have : cur cfg w.trace = {} := h hq
+  simp [snap, this]
+
+section policyLeaves
+variable (cfg : Cfg)
+variable (I : World → Prop) (hI : ∀ w w', Foot polK w w' → I w → I w')
+include hI
+
+theorem recordSuccess_i : ⦃fun w => ⌜I w⌝⦄ Policy.recordSuccess cfg
+    ⦃post⟨fun _ w => ⌜I w⌝, fun _ w => ⌜I w⌝⟩⦄ :=
+  inv_of_foot I (fun w0 => recordSuccess_foot polK w0 rfl rfl rfl cfg) hI
+
+theorem recordCancel_i : ⦃fun w => ⌜I w⌝⦄ Policy.recordCancel cfg
+    ⦃post⟨fun _ w => ⌜I w⌝, fun _ w => ⌜I w⌝⟩⦄ :=
+  inv_of_foot I (fun w0 => recordCancel_foot polK w0 rfl cfg) hI
+
+theorem recordFailure_i (k : EClass) : ⦃fun w => ⌜I w⌝⦄ Policy.recordFailure cfg k
+    ⦃post⟨fun _ w => ⌜I w⌝, fun _ w => ⌜I w⌝⟩⦄ :=
+  inv_of_foot I (fun w0 => recordFailure_foot polK w0 rfl rfl rfl cfg k) hI
+
+theorem ensureSettled_i : ⦃fun w => ⌜I w⌝⦄ ensureSettled cfg
+    ⦃post⟨fun _ w => ⌜I w⌝, fun _ w => ⌜I w⌝⟩⦄ :=
+  inv_of_foot I (fun w0 => ensureSettled_foot polK w0 rfl cfg) hI
+
+theorem handleAbortCall_i (e : Exn) : ⦃fun w => ⌜I w⌝⦄ handleAbortCall cfg e
+    ⦃post⟨fun _ w => ⌜I w⌝, fun _ w => ⌜I w⌝⟩⦄ :=
+  inv_of_foot I (fun w0 => handleAbortCall_foot polK w0 rfl rfl cfg e) hI
+
+theorem handleExhaustedCall_i (e : Exn) : ⦃fun w => ⌜I w⌝⦄ handleExhaustedCall cfg e
+    ⦃post⟨fun _ w => ⌜I w⌝, fun _ w => ⌜I w⌝⟩⦄ :=
+  inv_of_foot I (fun w0 => handleExhaustedCall_foot polK w0 rfl rfl rfl cfg e) hI
+
+theorem handleExceptionCall_i (e : Exn) (b : Bool) : ⦃fun w => ⌜I w⌝⦄ handleExceptionCall cfg e b
+    ⦃post⟨fun _ w => ⌜I w⌝, fun _ w => ⌜I w⌝⟩⦄ :=
+  inv_of_foot I (fun w0 => handleExceptionCall_foot polK w0 rfl rfl rfl rfl rfl cfg e b) hI
+
+theorem policyOutcome_i (ok : Bool) (value : Option Nat) (stop : Option StopReason) (attempts : Nat)
+    (lc : Option EClass) (le : Option String) (cause : Option Cause) :
+    ⦃fun w => ⌜I w⌝⦄ policyOutcome ok value stop attempts lc le cause
+    ⦃post⟨fun _ w => ⌜I w⌝, fun _ w => ⌜I w⌝⟩⦄ :=
+  inv_of_foot I (fun w0 => policyOutcome_foot polK w0 ok value stop attempts lc le cause) hI
+
+end policyLeaves
+
+/-- `Policy.call` with a retry component (also `RetryPolicy.call`, `@retry`, contexts, async twins) -/
+theorem call_retry_spec (cfg : Cfg) (hret : cfg.hasRetry = true) :
+    ⦃fun w => ⌜StartW cfg w⌝⦄ Policy.call cfg ⦃finPost cfg⦄ := by
+  have hs := fin_foot cfg
+  have h1 := recordSuccess_i cfg _ hs
+  have h2 := recordCancel_i cfg _ hs
+  have h3 := ensureSettled_i cfg _ hs
+  have h4 := handleAbortCall_i cfg _ hs
+  have h5 := handleExhaustedCall_i cfg _ hs
+  have h6 := handleExceptionCall_i cfg _ hs
+  have hrun := runCall_spec cfg
+  have hic := inv_of_foot (StartW cfg) (fun w0 => initCtx_foot inertK w0) (start_foot cfg)
+  have hcb := inv_of_foot (StartW cfg) (fun w0 => checkBreaker_foot inertK w0 rfl rfl rfl cfg) (start_foot cfg)
+  mvcgen [Policy.call, withFinally, callAdmitted, callLadder, hic, hcb, hrun, h1, h2, h3, h4, h5, h6]
+  all_goals (try intros)
+  all_goals (try simp only [restore_dummy])
+  all_goals (first | assumption | exact StartW.fin (by assumption) | skip)
+
+/-- `Policy.execute` with a retry component -/
+theorem execute_retry_spec (cfg : Cfg) (hret : cfg.hasRetry = true) :
+    ⦃fun w => ⌜StartW cfg w⌝⦄ Policy.execute cfg ⦃finPost cfg⦄ := by
+  have hs := fin_foot cfg
+  have h1 := recordSuccess_i cfg _ hs
+  have h2 := recordCancel_i cfg _ hs
+  have h3 := ensureSettled_i cfg _ hs
+  have h5 := handleExhaustedCall_i cfg _ hs
+  have h6 := handleExceptionCall_i cfg _ hs
+  have h7 := recordFailure_i cfg _ hs
+  have hrun := runExecute_spec cfg
+  have hic := inv_of_foot (StartW cfg) (fun w0 => initCtx_foot inertK w0) (start_foot cfg)
+  have hba := fun bc => inv_of_foot (StartW cfg) (fun w0 => breakerAllow_foot inertK w0 rfl bc) (start_foot cfg)
+  have hev := fun ev st k => inv_of_foot (StartW cfg)
+    (fun w0 => emitBreakerEvent_foot inertK w0 rfl rfl cfg ev st k) (start_foot cfg)
+  have hpo := fun a b c d e f g => inv_of_foot (StartW cfg)
+    (fun w0 => policyOutcome_foot inertK w0 a b c d e f g) (start_foot cfg)
+  mvcgen [Policy.execute, withFinally, executeAdmitted, executeAdmitted2, executeWithRetry, executeLadder,
+    hic, hba, hev, hpo, hrun, h1, h2, h3, h5, h6, h7]
+  all_goals (try intros)
+  all_goals (try simp only [restore_dummy])
+  all_goals (first | assumption | exact StartW.fin (by assumption) | (simp_all; done) | skip)
+
+/-! ### the theorems -/
+
+theorem run_retryTrace (cfg : Cfg) (t : Trace) (hq : quiet t = true) : run cfg (retryTrace t) = run cfg t := by
+  unfold retryTrace run
+  induction t with
+  | nil => rfl
+  | cons x t ih =>
+    have hqt : quiet t = true := by simp_all [quiet]
+    simp only [List.dropWhile_cons]
+    split
+    · rename_i hp
+      have hd : x.2.dur = 0 := by
+        obtain ⟨r, a⟩ := x
+        cases r <;> simp_all [quiet, isPrelude, isOp, isSleeper]
+      have hs : step cfg {} x = {} := by
+        obtain ⟨r, a⟩ := x
+        cases r <;> simp_all [isPrelude, step]
+      rw [List.foldl_cons, hs]
+      exact ih hqt
+    · rfl
+
+theorem verdict_of_fin {cfg : Cfg} {e : Entry} {w : World} {r : Res} (h : FinW cfg w) :
+    Mon.C02.ok cfg e w.trace.reverse r = true := by
+  unfold Mon.C02.ok
+  split
+  · rename_i hc
+    have hq : quiet w.trace.reverse = true := by simp_all
+    have hq' : QuietTr w.trace := by simpa using (quiet_iff _).mp hq
+    obtain ⟨h1, h2⟩ := h hq'
+    simp only [snap] at h1 h2
+    rw [run_retryTrace cfg _ hq, run_reverse]
+    simp only [h1, Bool.not_false, Bool.true_and, Bool.or_eq_true, Bool.not_eq_true', decide_eq_true_eq]
+    cases hh : honestSleeper w.trace.reverse with
+    | false => exact Or.inl rfl
+    | true => exact Or.inr (h2 (by simpa using (honest_iff _).mp hh))
+  · rfl
+
+/-- the world `runEntry` starts a call from -/
+def startWorld (w : World) : World := { w with trace := [], timeline := [], opCalls := 0 }
+
+theorem start_start (cfg : Cfg) (w : World) : StartW cfg (startWorld w) := fun _ => rfl
+
+/--
+**C02.**  For every configuration, every entry point (`Retry`/`Policy` × `call`/`execute`; the async
+twins, `RetryPolicy`, contexts and `@retry` are these by argument forwarding) and every world — every
+answer stream (all attempt durations, all sleeper over- and undershoots, all strategy outputs, any
+callback raising anything), every clock value, every state of a shared budget or breaker — the run
+satisfies the deadline monitor.  Measured on the monotonic clock from the start of the call, whenever
+time passes only in attempts and sleeps (`quiet`):
+
+* the operation is never invoked again once more than `deadline` has elapsed;
+* every backoff sleep requested fits the time then remaining (`elapsed + d ≤ deadline`);
+* after a failure observed at `elapsed ≥ deadline` the operation is not invoked and no sleep is requested;
+* if moreover every sleep lasts at least as long as requested (`honestSleeper`), the total sleep
+  requested is at most `deadline`.
+
+(Entry points without a retry loop have no deadline; the wall clock is no input of the model.)
+-/
+theorem deadline_envelope (cfg : Cfg) (e : Entry) (w : World) :
+    Mon.C02.ok cfg e (runEntry cfg e w).2.trace.reverse (runEntry cfg e w).1 = true := by
+  cases e with
+  | call =>
+    have := adequacy (runCall_spec cfg) (startWorld w) (start_start cfg w)
+    simp only [runEntry, startWorld] at this ⊢
+    split at this <;> rename_i heq <;> simp only [heq, toRes] <;> exact verdict_of_fin this
+  | execute =>
+    have := adequacy (runExecute_spec cfg) (startWorld w) (start_start cfg w)
+    simp only [runEntry, startWorld] at this ⊢
+    split at this <;> rename_i heq <;> simp only [heq, toResO] <;> exact verdict_of_fin this
+  | pcall =>
+    cases hret : cfg.hasRetry with
+    | false => simp [Mon.C02.ok, hasLoop, hret, Entry.isPolicy]
+    | true =>
+      have := adequacy (call_retry_spec cfg hret) (startWorld w) (start_start cfg w)
+      simp only [runEntry, startWorld] at this ⊢
+      split at this <;> rename_i heq <;> simp only [heq, toRes] <;> exact verdict_of_fin this
+  | pexecute =>
+    cases hret : cfg.hasRetry with
+    | false => simp [Mon.C02.ok, hasLoop, hret, Entry.isPolicy]
+    | true =>
+      have := adequacy (execute_retry_spec cfg hret) (startWorld w) (start_start cfg w)
+      simp only [runEntry, startWorld] at this ⊢
+      split at this <;> rename_i heq <;> simp only [heq, toResO] <;> exact verdict_of_fin this
+
+
+/-- …and therefore of every call in every script of calls and clock advances on ONE policy object. -/
+theorem deadline_envelope_script (cfg : Cfg) : ∀ (steps : List Step) (w : World),
+    ∀ l ∈ (runScript cfg steps w).1, Mon.C02.ok cfg l.entry l.trace l.res = true := by
+  intro steps
+  induction steps with
+  | nil => intro w l hl; simp [runScript] at hl
+  | cons st rest ih =>
+    intro w l hl
+    cases st with
+    | advance d => exact ih _ l (by simpa [runScript] using hl)
+    | run e =>
+      simp only [runScript, List.mem_cons] at hl
+      rcases hl with rfl | hl
+      · exact deadline_envelope cfg e w
+      · exact ih _ l hl
+
+/-! ### the conjuncts, read off the accepted log -/
+
+/-- time elapsed over a log: the durations of its answers -/
+def total (t : Trace) : Nat := (t.map (·.2.dur)).sum
+
+/-- the backoff a request asks for -/
+def sleepOf : Req → Nat
+  | .sleeper _ d => d
+  | _ => 0
+
+/-- total requested sleep -/
+def sleepSum (t : Trace) : Nat := (t.map (fun x => sleepOf x.1)).sum
+
+theorem fold_now (cfg : Cfg) (t : Trace) : ∀ s, (t.foldl (step cfg) s).now = s.now + total t := by
+  induction t with
+  | nil => intro s; simp [total]
+  | cons x t ih =>
+    intro s
+    rw [List.foldl_cons, ih]
+    have : (step cfg s x).now = s.now + x.2.dur := by
+      obtain ⟨r, a⟩ := x
+      cases r <;> simp [step]
+    simp [this, total, Nat.add_assoc]
+
+theorem fold_ops (cfg : Cfg) (t : Trace) : ∀ s, (t.foldl (step cfg) s).ops = s.ops + opCount t := by
+  induction t with
+  | nil => intro s; simp [opCount]
+  | cons x t ih =>
+    intro s
+    rw [List.foldl_cons, ih]
+    obtain ⟨r, a⟩ := x
+    cases r <;> simp [step, opCount, isOp, List.filter_cons] <;> omega
+
+theorem fold_slept (cfg : Cfg) (t : Trace) : ∀ s, (t.foldl (step cfg) s).slept = s.slept + sleepSum t := by
+  induction t with
+  | nil => intro s; simp [sleepSum]
+  | cons x t ih =>
+    intro s
+    rw [List.foldl_cons, ih]
+    obtain ⟨r, a⟩ := x
+    cases r <;> simp [step, sleepSum, sleepOf, Nat.add_assoc]
+
+theorem run_now (cfg : Cfg) (t : Trace) : (run cfg t).now = total t := by
+  simpa [run] using fold_now cfg t {}
+
+theorem run_ops (cfg : Cfg) (t : Trace) : (run cfg t).ops = opCount t := by
+  simpa [run] using fold_ops cfg t {}
+
+theorem run_slept (cfg : Cfg) (t : Trace) : (run cfg t).slept = sleepSum t := by
+  simpa [run] using fold_slept cfg t {}
+
+theorem run_append (cfg : Cfg) (p q : Trace) : run cfg (p ++ q) = q.foldl (step cfg) (run cfg p) := by
+  simp [run, List.foldl_append]
+
+theorem bad_step (cfg : Cfg) (s : St) (x : Req × Ans) (h : (step cfg s x).bad = false) : s.bad = false := by
+  obtain ⟨r, a⟩ := x
+  cases r <;> simp_all [step]
+
+theorem bad_fold (cfg : Cfg) (q : Trace) : ∀ s, (q.foldl (step cfg) s).bad = false → s.bad = false := by
+  induction q with
+  | nil => exact fun _ h => h
+  | cons x q ih => exact fun s h => bad_step cfg s x (ih _ h)
+
+theorem bad_at (cfg : Cfg) (p q : Trace) (x : Req × Ans) (h : (run cfg (p ++ x :: q)).bad = false) :
+    (step cfg (run cfg p) x).bad = false := by
+  rw [run_append] at h
+  exact bad_fold cfg q _ h
+
+/-- the operation failed (for the retry loop: an `Exception` other than the library's own control-flow
+    exceptions) -/
+def opFailed : Ans → Bool
+  | .raise e _ => e.isException && !e.isAbort && !e.isExhausted
+  | _ => false
+
+/-- a failure observed at or after the deadline: the operation raised and it was then `≥ deadline`,
+    or its result was classified as a failure at `≥ deadline` -/
+def LateFailure (cfg : Cfg) (before : Nat) (y : Req × Ans) : Prop :=
+  (isOp y.1 = true ∧ opFailed y.2 = true ∧ cfg.deadline ≤ before + y.2.dur) ∨
+  ((∃ v, y.1 = .resultClassify v) ∧ (∃ c d, y.2 = .klass c d) ∧ cfg.deadline ≤ before)
+
+theorem late_step (cfg : Cfg) (s : St) (x : Req × Ans) :
+    (step cfg s x).late = true ↔ s.late = true ∨ LateFailure cfg s.now x := by
+  obtain ⟨r, a⟩ := x
+  unfold LateFailure
+  cases r <;> simp [step, isOp, opFailed]
+  · cases a <;> simp [opFailed]
+  · cases a <;> simp
+
+/-- `late` of the monitor = some late failure somewhere in the log -/
+theorem late_iff (cfg : Cfg) (t : Trace) :
+    (run cfg t).late = true ↔ ∃ p y q, t = p ++ y :: q ∧ LateFailure cfg (total p) y := by
+  induction hn : t.length generalizing t with
+  | zero =>
+    have : t = [] := List.length_eq_zero_iff.mp hn
+    subst this
+    simp [run]
+  | succ n ih =>
+    rcases List.eq_nil_or_concat t with rfl | ⟨t, x, rfl⟩
+    · simp at hn
+    have ih := ih t (by simpa using hn)
+    rw [List.concat_eq_append] at *
+    rw [run_append]
+    simp only [List.foldl_cons, List.foldl_nil, late_step, ih, run_now]
+    constructor
+    · rintro (⟨p, y, q, rfl, hl⟩ | hl)
+      · exact ⟨p, y, q ++ [x], by simp, hl⟩
+      · exact ⟨t, x, [], rfl, hl⟩
+    · rintro ⟨p, y, q, he, hl⟩
+      rcases List.eq_nil_or_concat q with rfl | ⟨q', z, rfl⟩
+      · have := List.append_inj' he (by simp)
+        simp at this
+        obtain ⟨rfl, rfl⟩ := this
+        exact Or.inr hl
+      · have : t ++ [x] = (p ++ y :: q') ++ [z] := by simp [he]
+        have := List.append_inj' this rfl
+        obtain ⟨rfl, _⟩ := this
+        exact Or.inl ⟨p, y, q', rfl, hl⟩
+
+/-- what acceptance by the monitor means for a log of an entry point with a retry loop -/
+structure Envelope (cfg : Cfg) (t : Trace) : Prop where
+  bad : (run cfg t).bad = false
+  slept : honestSleeper t = true → sleepSum t ≤ cfg.deadline
+
+theorem envelope_of_ok {cfg : Cfg} {e : Entry} {t : Trace} {r : Res} (h : Mon.C02.ok cfg e t r = true)
+    (hl : hasLoop cfg e = true) (hq : quiet t = true) : Envelope cfg t := by
+  unfold Mon.C02.ok at h
+  simp only [hl, hq, Bool.and_self, if_true, run_retryTrace cfg t hq, Bool.and_eq_true, Bool.not_eq_true',
+    Bool.or_eq_true, decide_eq_true_eq] at h
+  refine ⟨h.1, fun hh => ?_⟩
+  rw [← run_slept cfg]
+  rcases h.2 with h2 | h2
+  · simp [hh] at h2
+  · exact h2
+
+/-- **No attempt after the deadline**: in a quiet accepted log, when the operation is invoked again
+    (not for the first time), at most `deadline` has elapsed since the start of the call. -/
+theorem no_attempt_after_deadline {cfg : Cfg} {t : Trace} (h : Envelope cfg t)
+    (p q : Trace) (x : Req × Ans) (ht : t = p ++ x :: q) (hx : isOp x.1 = true) (hp : 1 ≤ opCount p) :
+    total p ≤ cfg.deadline := by
+  have hb := bad_at cfg p q x (ht ▸ h.bad)
+  obtain ⟨r, a⟩ := x
+  cases r <;> simp_all [isOp, step, run_now, run_ops]
+
+/-- **No sleep beyond the time remaining**: every backoff `d` requested after `elapsed` fits:
+    `elapsed + d ≤ deadline`. -/
+theorem sleep_le_remaining {cfg : Cfg} {t : Trace} (h : Envelope cfg t)
+    (p q : Trace) (l : Lvl) (d : Nat) (a : Ans) (ht : t = p ++ (.sleeper l d, a) :: q) :
+    total p + d ≤ cfg.deadline := by
+  have hb := bad_at cfg p q _ (ht ▸ h.bad)
+  simp_all [step, run_now]
+
+/-- **…so the total sleep requested never exceeds the deadline** (honest sleeper) -/
+theorem total_sleep_le_deadline {cfg : Cfg} {t : Trace} (h : Envelope cfg t)
+    (hh : honestSleeper t = true) : sleepSum t ≤ cfg.deadline := h.slept hh
+
+/-- **A failure observed at or after the deadline is never retried**: after it the operation is not
+    invoked again and no sleep is requested. -/
+theorem late_failure_not_retried {cfg : Cfg} {t : Trace} (h : Envelope cfg t)
+    (p q : Trace) (x : Req × Ans) (ht : t = p ++ x :: q) (hx : isOp x.1 = true ∨ isSleeper x.1 = true) :
+    ¬ ∃ p1 y p2, p = p1 ++ y :: p2 ∧ LateFailure cfg (total p1) y := by
+  have hb := bad_at cfg p q x (ht ▸ h.bad)
+  rw [← late_iff]
+  obtain ⟨r, a⟩ := x
+  cases r <;> simp_all [isOp, isSleeper, step]
+
+/-! ### the hypotheses are necessary
+
+`quiet`: a slow hook between the post-sleep deadline check and the next attempt.
+`call`, `max_attempts=3 deadline=10`, a call-level `on_attempt_start` hook; answers (driver input)
+`unit 0 · raise ordinary:1:TRANSIENT 1 · klass TRANSIENT - 0 · delay 2 0 · unit 2 · unit 20 · value 42 1`:
+the model (and the real library, same timings on a virtual monotonic clock) logs exactly `slowHookLog`
+below and returns 42 — the second attempt begins at elapsed 23 > 10.
+
+`honestSleeper`: a sleeper that returns at once.  `call`, `max_attempts=3 deadline=10`, answers
+`raise ordinary:1:TRANSIENT 0 · klass TRANSIENT - 0 · delay 10 0 · unit 0 · raise ordinary:2:TRANSIENT 0 ·
+klass TRANSIENT - 0 · delay 10 0 · unit 0 · value 42 0`: the log is `earlySleeperLog`, every single
+sleep fits the time then remaining, and 20 > 10 is requested in total.
+(Reproduce: `printf 'case x\ncfg max_attempts=3 deadline=10 max_unknown=2 flags=c_attempt_start\ndo call\na unit 0\n…\nend\n' | lean/.lake/build/bin/driver loop`.) -/
+
+def ceCfg : Cfg := { maxAttempts := 3, deadline := 10 }
+
+def ceCtx (attempt : Nat) (prev : Option Nat) (remaining : Nat) : BackoffCtx :=
+  { attempt, klass := .transient, retryAfter := none, prev, remaining, cause := .exception }
+
+def slowHookLog : Trace :=
+  [(.attemptStart { attempt := 1, elapsed := 0 }, .unit 0),
+   (.op 1, .raise (.ordinary 1 .transient) 1),
+   (.classify "o1", .klass ⟨.transient, none⟩ 0),
+   (.strategy .default .ctx (ceCtx 1 none 9), .delay (.fin 2) 0),
+   (.sleeper .dflt 2, .unit 2),
+   (.attemptStart { attempt := 2, elapsed := 3 }, .unit 20),
+   (.op 2, .value 42 1)]
+
+/-- without `quiet` the envelope fails: the second attempt starts at elapsed 23 > deadline 10 -/
+example : quiet slowHookLog = false ∧ (run ceCfg slowHookLog).bad = true ∧
+    total (slowHookLog.take 6) = 23 := by decide
+
+def earlySleeperLog : Trace :=
+  [(.op 1, .raise (.ordinary 1 .transient) 0),
+   (.classify "o1", .klass ⟨.transient, none⟩ 0),
+   (.strategy .default .ctx (ceCtx 1 none 10), .delay (.fin 10) 0),
+   (.sleeper .dflt 10, .unit 0),
+   (.op 2, .raise (.ordinary 2 .transient) 0),
+   (.classify "o2", .klass ⟨.transient, none⟩ 0),
+   (.strategy .default .ctx (ceCtx 2 (some 10) 10), .delay (.fin 10) 0),
+   (.sleeper .dflt 10, .unit 0),
+   (.op 3, .value 42 0)]
+
+/-- without `honestSleeper` the total-sleep bound fails although the log is quiet and every single
+    request is within the envelope: 20 > 10 -/
+example : quiet earlySleeperLog = true ∧ honestSleeper earlySleeperLog = false ∧
+    (run ceCfg earlySleeperLog).bad = false ∧ sleepSum earlySleeperLog = 20 := by decide
+
+/-- non-vacuity: a quiet, honest log with a retry, accepted; the hypotheses of the conjuncts hold of it -/
+def goodLog : Trace :=
+  [(.op 1, .raise (.ordinary 1 .transient) 3),
+   (.classify "o1", .klass ⟨.transient, none⟩ 0),
+   (.strategy .default .ctx (ceCtx 1 none 7), .delay (.fin 7) 0),
+   (.sleeper .dflt 7, .unit 7),
+   (.op 2, .value 42 1)]
+
+example : quiet goodLog = true ∧ honestSleeper goodLog = true ∧ (run ceCfg goodLog).bad = false ∧
+    sleepSum goodLog = 7 ∧ total (goodLog.take 4) = 10 ∧ opCount (goodLog.take 4) = 1 ∧
+    Mon.C02.ok ceCfg .call goodLog (.ret 42) = true := by decide
+
+/-- the monitor has teeth: an attempt begun after the deadline, a sleep longer than the remaining
+    time, and a retry of a late failure are rejected -/
+example :
+    Mon.C02.ok ceCfg .call [(.op 1, .raise (.ordinary 1 .transient) 3), (.sleeper .dflt 7, .unit 8),
+      (.op 2, .value 1 0)] (.ret 1) = false ∧
+    Mon.C02.ok ceCfg .call [(.op 1, .raise (.ordinary 1 .transient) 3), (.sleeper .dflt 8, .unit 8)]
+      (.raised (.ordinary 1 .transient)) = false ∧
+    Mon.C02.ok ceCfg .call [(.op 1, .raise (.ordinary 1 .transient) 10), (.sleeper .dflt 0, .unit 0)]
+      (.raised (.ordinary 1 .transient)) = false := by decide
+
+
+/-- every quiet run of the model through an entry point with a retry loop is within the envelope:
+    the conjuncts above apply to it -/
+theorem run_envelope (cfg : Cfg) (e : Entry) (w : World) (hl : hasLoop cfg e = true)
+    (hq : quiet (runEntry cfg e w).2.trace.reverse = true) :
+    Envelope cfg (runEntry cfg e w).2.trace.reverse :=
+  envelope_of_ok (deadline_envelope cfg e w) hl hq
 
 end Redress.Props.C02
